@@ -81,3 +81,18 @@ Theorem C11_location_codes :
   location_codes = [("Bottom"%string, 3%Z); ("Inside"%string, 4%Z); ("Left"%string, 0%Z); ("Right"%string, 2%Z); ("Top"%string, 1%Z)].
 Proof. exact location_codes_are. Qed.
 Print Assumptions C11_getLocation.
+
+(* K3, second batch: the segment/rectangle-edge intersection the line clipper cuts with, from rect_clip.go *)
+From Clip Require Import Model.Measures Gen.Kernels2_gen Model.Kernel2Proofs.
+Theorem C11_segment_intersection_sound : forall p1 p2 p3 p4 ip,
+  coord_ok two29 p1 -> coord_ok two29 p2 -> coord_ok two29 p3 -> coord_ok two29 p4 ->
+  gen_getSegmentIntersection (px p1) (py p1) (px p2) (py p2) (px p3) (py p3) (px p4) (py p4) = (ip, true) ->
+  (on_segment p1 p2 ip = true /\ on_segment p3 p4 ip = true)
+  \/ (proper_cross p1 p2 p3 p4 /\
+      gen_getSegmentIntersectPt (px p1) (py p1) (px p2) (py p2) (px p3) (py p3) (px p4) (py p4) = (ip, true)).
+Proof. exact getSegmentIntersection_sound. Qed.
+Theorem C11_rect_intersects_from_source : forall l t r b l' t' r' b',
+  gen_Rect64_Intersects l t r b l' t' r' b' = true <->
+  exists x y, in_rect l t r b x y /\ in_rect l' t' r' b' x y.
+Proof. exact Rect64_Intersects_points. Qed.
+Print Assumptions C11_segment_intersection_sound.
